@@ -43,8 +43,8 @@ REG = {
         "modules": ["VProofs.Props.C15", "VProofs.Props.Pandas", "VProofs.Props.Numpy"],
         "theorems": thms("C15", ["C15_detect", "C15_infer"]) + ["V.Pd.pandas_WF", "V.Pd.outputs_good", "V.Pd.goodB_sound", "V.PandasProps.succ_restrict_perm", "V.PandasProps.C15_pandas",
                                                                 "V.Np.numpy_WF", "V.NumpyProps.C15_numpy"],
-        "runners": ["pandas", "list", "numpy", "algebra", "api"],
-        "relevant": ["contains", "guard", "infer-path", "infer-outcome", "detect-path", "relation-missing"],
+        "runners": ["pandas", "list", "numpy", "algebra", "api", "spark"],
+        "relevant": ["contains", "guard", "infer-path", "infer-outcome", "detect-path", "relation-missing", "spark"],
     },
     "C16": {
         "modules": ["VProofs.Props.C16", "VProofs.Props.Pandas", "VProofs.Props.Numpy", "VProofs.Props.Shapes"],
@@ -106,16 +106,19 @@ REG = {
         "partial": "the model cannot exhibit global state it does not name, nor hash-seed / process dependence: observed by the History runner",
     },
     "C11": {
-        "modules": ["VProofs.Props.C11", "VProofs.Props.PyList", "VProofs.Props.NumpyMore", "VProofs.Props.Shapes", "VProofs.Props.NumpyC11"],
+        "modules": ["VProofs.Props.C11", "VProofs.Props.PyList", "VProofs.Props.NumpyMore", "VProofs.Props.Shapes", "VProofs.Props.NumpyC11", "VProofs.Props.PyListBag"],
         "theorems": thms("C11", ["C11_sim", "C11_membership_pandas", "C11_repeat_pandas", "C11_detect_pandas",
                                  "C11_detect_repeat_pandas", "C11_infer_pandas"])
                     + ["V.Pd.guard_accBag", "V.Pd.xform_equiBag", "V.Pd.infer_bag", "V.PyProps.C11_membership_list", "V.PyProps.C11_detect_list",
                        "V.NumpyProps.isString_iff", "V.NumpyProps.C11_membership_numpy", "V.Np.guard_accBagN", "V.Np.xform_equiBagN",
                        "V.Np.infer_bag_np", "V.NumpyProps.C11_detect_numpy", "V.NumpyProps.C11_infer_numpy",
-                       "V.Np.guard_repeat", "V.Np.xform_repeat", "V.Np.containsB_repeat_np", "V.NumpyProps.C11_detect_repeat_numpy", "V.NumpyProps.C11_infer_repeat_numpy"] + ["V.Shapes.shapes_match"],
+                       "V.Np.guard_repeat", "V.Np.xform_repeat", "V.Np.containsB_repeat_np", "V.NumpyProps.C11_detect_repeat_numpy", "V.NumpyProps.C11_infer_repeat_numpy",
+                       "V.PyProps.containsL_ss", "V.PyProps.guard_perm_list", "V.PyProps.xform_perm_list", "V.PyProps.xform_ss_list",
+                       "V.PyProps.infer_rel_list", "V.PyProps.C11_infer_list", "V.PyProps.C11_infer_repeat_list",
+                       "V.PyProps.xform_repeat_list", "V.PyProps.C11_infer_repeat_exact_list"] + ["V.Shapes.shapes_match"],
         "runners": ["bag", "pandas", "numpy", "list"],
         "relevant": ["contains", "detect", "guard", "infer-path"],
-        "partial": "k-fold repetition is proved for membership and detect_type only (infer_type under repetition, and the numpy / list back ends, are explored by the bag and sequence runners); DtBag (pd.to_datetime parses element by element) is a hypothesis",
+        "partial": "infer_type under k-fold repetition is proved for the numpy and list models, for pandas it is explored by the bag runner (membership and detect_type under repetition are proved for all three); DtBag (pd.to_datetime parses element by element) is a hypothesis; the list theorems need convCaughtL (every conversion error is a caught one), evaluated per input",
     },
     "C12": {
         "modules": ["VProofs.Props.C12"],
